@@ -1,0 +1,17 @@
+//go:build verif
+
+package spnego
+
+import "reflect"
+
+// VerifShadowTypes exposes the unexported marshalling shadow structs to the verification harness, which
+// reads their asn1 struct tags by reflection (build tag verif only).
+func VerifShadowTypes() map[string]reflect.Type {
+	return map[string]reflect.Type{
+		"marshalNegTokenInit": reflect.TypeOf(marshalNegTokenInit{}),
+		"marshalNegTokenResp": reflect.TypeOf(marshalNegTokenResp{}),
+	}
+}
+
+// VerifKRB5TokenID returns the two token-id octets of a KRB5Token (build tag verif only).
+func VerifKRB5TokenID(m *KRB5Token) []byte { return m.tokID }
